@@ -136,11 +136,11 @@ CHECKS = {
         ],
     },
     'C20': {
-        'level_text': 'two stages: symbolic execution of every MemoryStore method and the Server handlers yields, per path, its lock/unlock events and its accesses to the shared maps; a z3 bounded interleaving model then decides, over a symbolic schedule of 2 (quick) / 3 (thorough) threads each running any extracted trace, that no reachable state is a deadlock (Go RWMutex semantics with writer preference) and that no two threads are ever about to make conflicting accesses to the same object. A sequential harness decides that each store method meets the key-value map specification.',
+        'level_text': 'two stages: symbolic execution of every MemoryStore method and the Server handlers yields, per path, its lock/unlock events and its accesses to the shared maps; a z3 bounded interleaving model then decides, over a symbolic schedule of 2 threads each running any extracted trace (3 threads: 788 of 2024 trace combinations decided in 25 minutes, none violated; not registered because it does not finish), that no reachable state is a deadlock (Go RWMutex semantics with writer preference) and that no two threads are ever about to make conflicting accesses to the same object. A sequential harness decides that each store method meets the key-value map specification.',
         'level_note': 'traces come from the real MemoryStore.Get/Put/Delete/List, Server.GetServiceProvider, HandlePutService, HandleDeleteService, HandleIDPInitiated, HandleLogin, HandlePutUser, HandleListServices over the real MemoryStore (sync.Mutex/RWMutex calls and map operations are recorded, not executed concurrently). The schedule is a solver variable; nothing is enumerated except which traces run together. Counterexamples are schedules of the real code\'s events (symbolic replay: Go offers no way to force a schedule natively; the two findings on the pinned tree were confirmed with hand-written native demonstrations). Outside: the Go memory model below conflicting unsynchronised accesses, more than 3 threads, handlers not listed.',
         'harnesses': [
             {'name': 'Harness_C20_ops', 'pkg': 'samlidp', 'replay': 'symbolic', 'mode': 'interleave', 'must_reach': ['op-done'],
-             'opts': {'trace_shared': True, 'no_sign_err': True, 'K': 1}, 'threads': {'quick': 2, 'thorough': 3}, 'budget_s': {'quick': 600, 'thorough': 1500}},
+             'opts': {'trace_shared': True, 'no_sign_err': True, 'K': 1}, 'threads': {'quick': 2, 'thorough': 2}, 'budget_s': {'quick': 600, 'thorough': 1500}},
             {'name': 'Harness_C20_seq', 'pkg': 'samlidp', 'replay': 'direct', 'must_reach': ['sequential']},
             {'name': 'Harness_C20_linearizable', 'pkg': 'samlidp', 'replay': 'stress', 'must_reach': ['quiescent'], 'validate_reach': False,
              'quick': {'params': {'lin.threads': 2, 'lin.ops.0': 2, 'lin.ops.1': 1}},
@@ -215,11 +215,11 @@ CHECKS = {
     },
     'C06': {
         'level_text': 'z3 decides, for all request, registry, endpoint, session and clock values at once, that the assertion and the emitted Response element/form are scoped to the selected registered endpoint, the registered SP, the request ID and the issuance moment, carry only session strings, and that both elements carry an enveloped signature made by the IdP key (private key or crypto.Signer).',
-        'level_note': 'real DefaultAssertionMaker.MakeAssertion, MakeAssertionEl, MakeResponse, PostBinding, signingContext, the Element() builders and the etree code executed from SSA. Request, registry entry and selected endpoint are independent symbolic values. goxmldsig SignEnveloped is a contract stub (a Signature child recording signer and signed element); that the signature bytes verify is cryptography (outside), replayed natively with real keys. Attribute harness: <=1 (quick) / <=2 (thorough) requested attributes from a fixed name list, <=1 group and custom attribute, and in the quick tier five of the optional user fields empty.',
+        'level_note': 'real DefaultAssertionMaker.MakeAssertion, MakeAssertionEl, MakeResponse, PostBinding, signingContext, the Element() builders and the etree code executed from SSA. Request, registry entry and selected endpoint are independent symbolic values. goxmldsig SignEnveloped is a contract stub (a Signature child recording signer and signed element); that the signature bytes verify is cryptography (outside), replayed natively with real keys. Attribute harness: <=1 (quick) / <=2 (thorough) requested attributes from a fixed name list (each with or without a value listed in the metadata), <=1 group and custom attribute, five of the optional user fields empty (with all of them arbitrary the thorough run does not finish: 141 000 paths in 30 minutes, all discharged).',
         'harnesses': [
             {'name': 'Harness_C06_assertion', 'pkg': 'saml', 'replay': 'direct', 'must_reach': ['made']},
             {'name': 'Harness_C06_attributes', 'pkg': 'saml', 'replay': 'direct', 'must_reach': ['made', 'attribute-value'], 'opts': {'time_res': 1000000},
-             'quick': {'K': 1, 'params': {'session.few': 1, 'requested.max': 1, 'rand.mayfail': 0}}, 'thorough': {'K': 1, 'params': {'session.few': 0, 'requested.max': 2, 'rand.mayfail': 0}},
+             'quick': {'K': 1, 'params': {'session.few': 1, 'requested.max': 1, 'rand.mayfail': 0}}, 'thorough': {'K': 1, 'params': {'session.few': 1, 'requested.max': 2, 'rand.mayfail': 0}},
              'budget_s': {'quick': 600, 'thorough': 1800}},
             {'name': 'Harness_C06_response', 'pkg': 'saml', 'replay': 'direct', 'must_reach': ['emitted', 'refused'], 'validate_labels': ['emitted'],
              'quick': {'params': {'rand.mayfail': 0}, 'no_sign_err': True}, 'thorough': {'params': {'rand.mayfail': 1}}},
